@@ -11,7 +11,7 @@ RULE = ("three kinds of case: (a) matched DST grids r_j=j dr, Q_k=k pi/(N dr) wi
         "at both ends: F->G->F, G->F->G, S->g->S, g->S->g and basis-vector partners; (b) closed-form family G(r)=sum A r exp(-a r^2) "
         "<-> F(Q)=sum A sqrt(pi) Q/(4 a^1.5) exp(-Q^2/4a) on fine grids (step<=0.05/sqrt(a), range>=12/sqrt(a)), both directions, "
         "compared with the closed form; non-trivial = N>=3 or at least one family member with A != 0")
-DIST = ["kind", "with_unc", "intgrid"]
+DIST = ["kind", "with_unc", "intgrid", "window"]
 SHRINK = None
 
 
@@ -21,6 +21,9 @@ def gen(rng, i, tier):
     # reduced function is zero, e.g. at the two end points and at Q = 0 / r = 0): the partner values may not depend on them
     c["unc"] = float(10 ** rng.uniform(-3, -1)) if rng.random() < 0.5 else None
     c["with_unc"] = c["unc"] is not None
+    # a quarter of the cases spell the integration window out: xmin / xmax equal to the first / last point of the input grid,
+    # which is what omitting them means
+    c["window"] = str(rng.choice(["xmax", "xmin", "both"])) if rng.random() < 0.25 else None
     return c
 
 
@@ -56,23 +59,31 @@ class _T:
     """the four transforms of this property; when the case carries uncertainties every call is accompanied by
     c*|reduced value| under the method's documented keyword"""
 
-    def __init__(self, c):
+    def __init__(self, c, window=None):
         self.c = c
+        self.window = window
         self.tr = impl.obj("Transformer")
 
     def __getattr__(self, name):
         fn = getattr(self.tr, name)
-        if self.c is None:
+        if self.c is None and self.window is None:
             return fn
         key, base = _UNC[name]
 
         def call(x, y, xo, **kw):
-            return fn(x, y, xo, **{key: self.c * np.abs(np.asarray(y, dtype=float) - base)}, **kw)
+            extra = {}
+            if self.c is not None:
+                extra[key] = self.c * np.abs(np.asarray(y, dtype=float) - base)
+            if self.window in ("xmax", "both"):
+                extra["xmax"] = float(np.max(x))
+            if self.window in ("xmin", "both"):
+                extra["xmin"] = float(np.min(x))
+            return fn(x, y, xo, **extra, **kw)
         return call
 
 
 def evaluate(case):
-    tr = _T(case.get("unc"))
+    tr = _T(case.get("unc"), case.get("window"))
     kw = case["kw"]
     fails = []
     if case["kind"] == "matched":
